@@ -20,6 +20,8 @@ func unknownToken(form int) (tok string, name string) {
 		vAssume(!strings.HasPrefix("flag", x))
 		vAssume(!strings.HasPrefix("str", x))
 		vAssume(!strings.HasPrefix("cmdopt", x))
+		vAssume(!strings.HasPrefix("sopt", x))
+		vAssume(!strings.HasPrefix("list", x))
 		return "--" + x, x
 	case 1: // --x=w
 		x := vString("x")
@@ -29,6 +31,8 @@ func unknownToken(form int) (tok string, name string) {
 		vAssume(!strings.HasPrefix("flag", x))
 		vAssume(!strings.HasPrefix("str", x))
 		vAssume(!strings.HasPrefix("cmdopt", x))
+		vAssume(!strings.HasPrefix("sopt", x))
+		vAssume(!strings.HasPrefix("list", x))
 		return "--" + x + "=" + w, x
 	default: // -y : one letter, the same reading in all three modes
 		return "-y", "y"
@@ -39,7 +43,7 @@ func VerifC08_Placement() {
 	vNativeReset()
 	mode := vInt("mode", 0, 2)
 	um := vInt("um", 0, 2)
-	place := vInt("place", 0, 4)
+	place := vInt("place", 0, 7)
 	form := vInt("form", 0, 2)
 	u, name := unknownToken(form)
 	v := positional("v")
@@ -50,6 +54,8 @@ func VerifC08_Placement() {
 	setUnknown(opt, um)
 	flag := opt.Bool("flag", false)
 	str := opt.String("str", "d")
+	sopt := opt.StringOptional("sopt", "dso")
+	list := opt.StringSlice("list", 1, 3)
 	ran := ""
 	opt.SetCommandFn(func(c context.Context, o *GetOpt, a []string) error { ran += "root;"; return nil })
 	cmd := opt.NewCommand("cmd", "")
@@ -75,6 +81,17 @@ func VerifC08_Placement() {
 		// what would be a known option of the parent
 		args, want = []string{"wrap", u, "--flag", q}, []string{u, "--flag", q}
 		effUm = 2
+	case 5:
+		// an option only the command declares, given before the command token, is unknown where it stands
+		vAssume(form == 0)
+		u, name = "--cmdopt", "cmdopt"
+		args, want = []string{u, "cmd", q}, []string{u, q}
+	case 6:
+		// directly behind an optional-value option the unknown option is not taken as its value
+		args, want = []string{"--sopt", u, q}, []string{u, q}
+	case 7:
+		// nor as a further value of a multi-value option
+		args, want = []string{"--list", v, u}, []string{u}
 	}
 	vPhase("run")
 	remaining, err := opt.Parse(args)
@@ -113,6 +130,12 @@ func VerifC08_Placement() {
 			vAssert("around/flag", *flag)
 		case 4:
 			vAssert("around/wrapper-does-not-set-parent-flag", !*flag)
+		case 5:
+			vAssert("around/command-option-not-set", !*cmdopt)
+		case 6:
+			vAssert("around/optional-keeps-default", *sopt == "dso" && opt.Called("sopt"))
+		case 7:
+			vAssert("around/list", eqStrs(*list, []string{v}))
 		}
 	}
 }
